@@ -686,3 +686,6 @@ def check_thorough(ctx):
         if not ob.ok:
             ctx.notes.append('sibling cross-check (informational, out of scope): %s @ %s: %s' % (ob.key, ob.loc, ob.detail))
     ctx.count('sibling_obligations_informational', len(side.obs))
+
+
+CLAUSE += '; serde_json is resolved without a magic-token feature (arbitrary_precision / raw_value) in the closure of the SQL store'
